@@ -263,6 +263,9 @@ func cmdRun(args []string) {
 			if c.PlanOut != nil {
 				rec.Plan = c.PlanOut
 			}
+			if rec.Plan.Entry == "" {
+				rec.Plan.HistorySeed, rec.Plan.HistoryFrom, rec.Plan.HistoryStride = *seed, *from, *stride
+			}
 			rec.Sample = c.Trace
 			emitJSON(rec)
 		} else if *allRecs {
@@ -327,6 +330,18 @@ func cmdPlan(args []string) {
 	wireClock()
 	fmt.Fprintf(out, "B 0\n")
 	out.Flush()
+	if plan.HistoryOn && plan.HistoryStride > 0 {
+		// the runs this process executed before the failing one, re-executed silently
+		for k := plan.HistoryFrom; k < plan.RunIndex; k += plan.HistoryStride {
+			simrt.Progress.Add(1)
+			runSeed := core.Mix(plan.HistorySeed, k)
+			hrec := &core.Record{Seed: runSeed, Mode: p.PickMode(k)}
+			runOne(p, &core.Ctx{Tape: core.NewTape(runSeed), Tier: plan.Tier, Mode: hrec.Mode, Rec: hrec, RunIndex: k})
+			if simrt.Tainted {
+				break
+			}
+		}
+	}
 	rec := &core.Record{Seed: plan.Seed, Mode: plan.Mode}
 	if len(plan.Case) > 0 {
 		if p.Enum == nil {
